@@ -167,6 +167,14 @@ def check_chunk(args):
                     lines.append(f"int b{len(lines)};")
                     expect[len(lines)] = not want
                     lines.append("#endif")
+                # an #elif with an EMPTY group still takes part in the chain: when it is selected, the #else is not
+                name0, expr0, want0 = ps[0]
+                lines.append("#if 0")
+                lines.append(f"#elif {expr0}")
+                lines.append("#else")
+                lines.append(f"int z{len(lines)};")
+                expect[len(lines)] = not want0
+                lines.append("#endif")
                 # E must not be evaluated (nor change the result) in an #elif after a taken branch
                 lines.append("#if 1")
                 lines.append(f"int c{len(lines)};")
